@@ -60,12 +60,16 @@ type world struct {
 	rrTotal, rrHeld sdk.Int
 	rrVariant string
 	custN, custMode int
+	foreignFees  int      // 0: ukex fees only, 1: ukex+ubtc, 2: ukex+ubtc+xeth
+	compoundDesc []string // the compound settings of this history (replay data)
 }
 
 func newWorld(seed uint64, r *hx.Rng, rec *recorder, hist int) *world {
 	w := &world{r: r, rec: rec, hist: hist, seed: seed, ids: map[string]int64{}, names: map[int64]string{}, nextU: 100, nextE: 1500,
 		nameIDs: map[string]int64{}, secretOf: map[int]string{}}
-	w.c = abci.NewChain(abci.Config{Accounts: nAcc, Validators: 2, Seed: seed})
+	w.c = abci.NewChain(abci.Config{Accounts: nAcc, Validators: 2, Seed: seed, Gov: func(g *govtypes.GenesisState) {
+		g.NetworkProperties.AutocompoundIntervalNumBlocks = uint64(1 + hist%2) // compounding rounds happen within a history
+	}})
 	for i, a := range w.c.Accounts {
 		w.ids[a.Addr.String()] = int64(i)
 		w.names[int64(i)] = fmt.Sprintf("a%d", i)
@@ -168,8 +172,13 @@ func (w *world) history(only string) {
 	w.ops(14, only)
 	w.end()
 	w.begin(5)
-	w.ops(14, only)
+	w.ops(12, only)
 	w.end()
+	for i := 0; i < 3; i++ { // short blocks: several reward / compounding rounds
+		w.begin(5)
+		w.ops(4, only)
+		w.end()
+	}
 	w.begin(700)
 	w.late = true
 	w.ops(10, only)
@@ -198,10 +207,19 @@ func (w *world) setupStaking() {
 	for _, d := range []int{1, 2, 3} {
 		w.must("undelegate", []sdk.Msg{mstypes.NewMsgUndelegate(w.astr(d), w.valStr, sdk.NewCoins(ukex(1_000+int64(w.r.Intn(5000)))))}, []int{d})
 	}
+	w.setupCompound()
 	// unclaimed rewards: recorded through the keeper, funded into the fee collector
 	ctx := w.ctx()
 	for _, d := range []int{0, 1, 2} {
 		rw := sdk.NewCoins(ukex(4000 + int64(w.r.Intn(1000))))
+		// rewards already on record in the other fee denoms (the same denoms the fees of this
+		// history are paid in), so that a compounding round meets non-compoundable leftovers
+		if w.foreignFees >= 1 {
+			rw = rw.Add(sdk.NewInt64Coin("ubtc", 20+int64(w.r.Intn(50))))
+		}
+		if w.foreignFees >= 2 {
+			rw = rw.Add(sdk.NewInt64Coin("xeth", 30+int64(w.r.Intn(50))))
+		}
 		if err := w.c.App.BankKeeper.MintCoins(ctx, minttypes.ModuleName, rw); err != nil {
 			panic(err)
 		}
@@ -210,6 +228,49 @@ func (w *world) setupStaking() {
 		}
 		w.c.App.MultiStakingKeeper.IncreaseDelegatorRewards(ctx, w.addr(d), rw)
 	}
+}
+
+// setupCompound: every operation that rewrites the rewards record outside the owner's own
+// transactions is driven: auto-compounding with AllDenom true/false and 1..3 opted-in denoms,
+// rewards in several denoms (fees paid in ubtc / xeth), some of them not compoundable (xeth is not
+// stake-enabled; ubtc below a raised StakeMin).
+func (w *world) setupCompound() {
+	type ci struct {
+		acc    int
+		all    bool
+		denoms []string
+	}
+	variants := []struct {
+		infos      []ci
+		fees       int
+		raiseUbtc  bool
+	}{
+		{[]ci{{1, true, nil}, {2, false, []string{"ukex"}}}, 1, false},
+		{[]ci{{1, false, []string{"ukex", "xeth"}}, {2, false, []string{"ukex", "ubtc", "xeth"}}}, 2, false},
+		{[]ci{{1, false, []string{"ukex", "ubtc"}}, {2, false, []string{"ubtc", "ukex", "xeth"}}}, 2, true},
+		{[]ci{{1, false, []string{"xeth"}}, {2, false, []string{"ubtc"}}, {3, false, []string{"ukex", "xeth"}}}, 2, false},
+		{[]ci{{1, true, nil}, {2, true, nil}}, 0, false},
+		{[]ci{{1, false, []string{"ukex", "xeth"}}, {3, false, []string{"ukex", "ubtc"}}}, 2, true},
+	}
+	v := variants[w.hist%len(variants)]
+	w.foreignFees = v.fees
+	for _, c := range v.infos {
+		w.must("register-delegator", []sdk.Msg{mstypes.NewMsgRegisterDelegator(w.astr(c.acc))}, []int{c.acc})
+		w.must("set-compound-info", []sdk.Msg{mstypes.NewMsgSetCompoundInfo(w.astr(c.acc), c.all, c.denoms)}, []int{c.acc})
+		w.compoundDesc = append(w.compoundDesc, fmt.Sprintf("compound info of a%d: all_denom=%v denoms=%v", c.acc, c.all, c.denoms))
+	}
+	if v.raiseUbtc {
+		ctx := w.ctx()
+		ti := w.c.App.TokensKeeper.GetTokenInfo(ctx, "ubtc")
+		if ti != nil {
+			ti.StakeMin = sdk.NewInt(1_000_000_000)
+			if err := w.c.App.TokensKeeper.UpsertTokenInfo(ctx, *ti); err != nil {
+				panic(err)
+			}
+			w.compoundDesc = append(w.compoundDesc, "ubtc StakeMin raised to 1000000000 (through the tokens keeper)")
+		}
+	}
+	w.compoundDesc = append(w.compoundDesc, fmt.Sprintf("fee denoms in use: %d foreign; autocompound interval %d blocks", v.fees, 1+w.hist%2))
 }
 
 func (w *world) setupIdentity() {
@@ -251,7 +312,7 @@ func (w *world) setupLayer2() {
 	d.TotalBond = ukex(1_000_000_000)
 	w.c.App.Layer2Keeper.SetDapp(ctx, d)
 	lp := sdk.NewCoins(sdk.NewInt64Coin("lp/db", 900_000_000))
-	if err := w.c.App.BankKeeper.MintCoins(ctx, l2types.ModuleName, lp.Add(lp...)); err != nil {
+	if err := w.c.App.BankKeeper.MintCoins(ctx, l2types.ModuleName, lp.Add(lp...).Add(sdk.NewInt64Coin("lp/db", 1_000_000))); err != nil { // the module keeps the pre/post-mint amounts
 		panic(err)
 	}
 	for _, a := range []int{3, 6} {
